@@ -445,6 +445,12 @@ var seedTexts = []string{
 	`9007199254740993`, `-9007199254740993`, `1.7976931348623157e308`, `5e-324`, `2.2250738585072014e-308`, `123456789012345678901234567890`, `1e22`, `1e23`,
 	`""`, `" "`, `" a "`, `[""]`, `"'"`, `"'a'"`, `"a,b"`, `"a, b"`, `"[1]"`, `"{a:1}"`, `"]"`, `"}"`, `":"`, `","`, `"${x}"`, `"$"`, `"a b"`, `"a.b"`,
 	`[1,"a",true,null,{"x":1.5}]`, `{"a":[1,{"b":[2,{"c":"d"}]}]}`, `[[[[[[1]]]]]]`, `{"a":{"b":{"c":{"d":{}}}}}`, `{"a":1,"b":2,"c":3}`, `{"b":1,"a":[true]}`,
+	// whole numbers in float syntax at the limits of the integer types and of the float64 mantissa
+	`9223372036854775808.0`, `9.223372036854775808e18`, `92233720368547758.08e2`, `-9223372036854775808.0`, `-9.223372036854775808E+18`, `9223372036854775807.0`,
+	`18446744073709551616.0`, `1.8446744073709551616e19`, `18446744073709551615.0`, `9007199254740992.0`, `9007199254740993.0`, `9.007199254740992e15`, `[0, 9223372036854775808.0]`, `{"n": 1.8446744073709552e19}`,
+	// many containers side by side, many levels
+	"[" + strings.Repeat("[],", 99) + "{}]", "[" + strings.Repeat("[ ], { },", 50) + "[1]]", "{\"a\":[" + strings.Repeat("{\"t\":[],\"a\":{}},", 60) + "0],\"b\":{\"c\":[1]}}",
+	strings.Repeat("[", 200) + strings.Repeat("]", 200), strings.Repeat("{\"k\":[", 100) + "1" + strings.Repeat("]}", 100),
 	// outside the domain (skipped by the oracle, kept so that the fuzzer starts near the borders)
 	`1e400`, `-1e400`, `1e-400`, `{"a":1,"a":2}`, `"\ud800"`, `"\udc00\ud800"`, `01`, `[1,]`, `{"a":1,}`, `'a'`, `[`, `{`, `"`, `"\`, `"\x41"`, `"\'"`, `tru`, `+1`, `.5`, `1.`, "\"\n\"",
 }
@@ -459,7 +465,7 @@ func enumSeeds(yield func(TextCase) bool) {
 
 var subSeeds = runlog.Register(&runlog.Sub[TextCase]{
 	Name: "seed-texts",
-	Rule: "fixed list of hostile JSON texts (escaped backslash before the closing quote, JSON-only escapes, every layout position of whitespace, number edge spellings, empty containers, keyword look-alikes); same differential oracle as short-texts. It is the seed corpus of the native fuzz target FuzzJSONRoundTrip.",
+	Rule: "fixed list of hostile JSON texts (escaped backslash before the closing quote, JSON-only escapes, every layout position of whitespace, number edge spellings incl. whole numbers in float syntax at 2^53/2^63/2^64, empty containers, 100+ containers side by side, 200 levels, keyword look-alikes); same differential oracle as short-texts. It is the seed corpus of the native fuzz target FuzzJSONRoundTrip.",
 	Enum: enumSeeds,
 	Run:  runText,
 })
